@@ -16,6 +16,9 @@ def history(ctx, nops):
     progs = []
     for _ in range(8):
         p = gen.gen_program(rng, gen.GenOpts(max_depth=rng.choice([0, 1, 2]), max_nodes=5, ident_pool=gen.PLAIN_IDENTS, splitters=True))
+        if len(progs) in (2, 5):
+            # an experiment may be called like anything — also like a method or attribute of the evaluator
+            p.name = ["recompile", "run_experiment", "_checksum", "partial", "str"][len(progs) % 5]
         progs.append((p, gen.render(p)))
     bad = ['def e { return "a" weighted }', 'def e { splitters: u return "a" weighted 1 } @']
     ops = []
